@@ -45,6 +45,7 @@ LONG = {"uint8": [1, 2, 254, 255, 256, 510, 511],
         "int8": [1, 2, 126, 127, 128, 254, 255],
         "uint16": [1, 65534, 65535, 65536, 131070, 131071]}
 LIT_MAX = 16      # dense values longer than this travel as runs
+NEG_N = 4         # sequences up to this length are also gathered with negative indices
 
 
 # ------------------------------------------------------------------ projections
@@ -247,6 +248,11 @@ def gen_brle_cases(chunk):
                     R.call("sorted_brle_gather_1d", dict(base, idx=list(idx), form=form),
                            lambda: ints(tuple(rl.sorted_brle_gather_1d(b, arg))))
             R.call("brle_gather_1d", dict(base, idx=[n], form="array"), lambda: ints(rl.brle_gather_1d(b, np.array([n]))))
+            if not opts.get("long") and n <= NEG_N:
+                # negative indices (numpy counts from the end) and indices below -length
+                for idx in ([-1], [-n], [-n - 1], [0, -1], [-1, n - 1, -n]):
+                    R.call("brle_gather_1d", dict(base, idx=idx, form="array"), lambda: ints(rl.brle_gather_1d(b, np.array(idx))))
+                R.call("sorted_brle_gather_1d", dict(base, idx=[-1], form="list"), lambda: ints(tuple(rl.sorted_brle_gather_1d(b, [-1]))))
             if opts.get("long"):
                 for mr in opts["masks"]:
                     m = expand_runs(mr, bool)
@@ -319,6 +325,10 @@ def gen_rle_cases(chunk):
                     R.call("sorted_rle_gather_1d", dict(base, idx=list(idx), form=form),
                            lambda: ints(tuple(rl.sorted_rle_gather_1d(r, arg))))
             R.call("rle_gather_1d", dict(base, idx=[n], form="array"), lambda: ints(rl.rle_gather_1d(r, np.array([n]))))
+            if not opts.get("long") and n <= NEG_N:
+                for idx in ([-1], [-n], [-n - 1], [0, -1], [-1, n - 1, -n]):
+                    R.call("rle_gather_1d", dict(base, idx=idx, form="array"), lambda: ints(rl.rle_gather_1d(r, np.array(idx))))
+                R.call("sorted_rle_gather_1d", dict(base, idx=[-1], form="list"), lambda: ints(tuple(rl.sorted_rle_gather_1d(r, [-1]))))
             if opts.get("long"):
                 for mr in opts["masks"]:
                     m = expand_runs(mr, bool)
@@ -399,7 +409,9 @@ def runlength_work(tier):
             bits = list(bits)
             dense.append(("d", bits, wide_dt))
             e = canonical_brle(bits)
-            brle.append((e, {"dtypes": small_dt, "elementwise": True, "exh_n": exh_n}))
+            # quick: the element-wise calls (gathers, masks) meet every second sequence of 9 - 10 elements
+            ew = big or n <= 8 or (len(dense) + seed()) % 2 == 0
+            brle.append((e, {"dtypes": small_dt, "elementwise": ew, "exh_n": exh_n}))
             if n <= 6:
                 brle.append((e + [0], {"dtypes": small_dt, "elementwise": n <= 4, "exh_n": exh_n}))
     # --- every sequence over {0,1,2} of length <= 7
@@ -408,15 +420,18 @@ def runlength_work(tier):
             seq = list(seq)
             if max(seq) == 2:
                 dense.append(("d", seq, wide_dt))
-            rle.append((canonical_rle(seq), {"dtypes": small_dt, "elementwise": True, "exh_n": exh_n}))
+            ew = big or n <= 6 or (len(rle) + seed()) % 2 == 0
+            rle.append((canonical_rle(seq), {"dtypes": small_dt, "elementwise": ew, "exh_n": exh_n}))
     # --- every short encoding, canonical or not (zero counts, repeated values)
     for k in range(1, 6):
         for e in itertools.product((0, 1, 2, 3), repeat=k):
-            brle.append((list(e), {"dtypes": small_dt, "elementwise": True, "vals": k <= 3, "exh_n": 3}))
+            ew = big or k <= 4 or (len(brle) + seed()) % 2 == 0
+            brle.append((list(e), {"dtypes": small_dt, "elementwise": ew, "vals": k <= 3, "exh_n": 3}))
     for k in range(1, 4):
         for vals in itertools.product((0, 1, 2), repeat=k):
             for cnts in itertools.product((0, 1, 2), repeat=k):
-                rle.append(([x for p in zip(vals, cnts) for x in p], {"dtypes": small_dt, "elementwise": True, "exh_n": 3}))
+                ew = big or k <= 2 or (len(rle) + seed()) % 2 == 0
+                rle.append(([x for p in zip(vals, cnts) for x in p], {"dtypes": small_dt, "elementwise": ew, "exh_n": 3}))
     # --- run-level descriptions around the count maximum of every dtype
     for dn, L in LONG.items():
         kmax = 2 if dn == "uint16" else 3
@@ -497,7 +512,7 @@ def narrow_work(tier, rs):
 
 # ------------------------------------------------------------------ part 2: encoding trees
 SHAPES = [(3,), (4,), (2, 2), (2, 3), (2, 2, 2), (1, 2, 3)]
-RESHAPES = {3: [(3,)], 4: [(4,), (2, 2), (-1, 2)], 6: [(6,), (2, 3), (3, 2), (-1, 2), (1, 2, 3)],
+RESHAPES = {1: [(1,), (1, 1), (1, 1, 1)], 3: [(3,)], 4: [(4,), (2, 2), (-1, 2)], 6: [(6,), (2, 3), (3, 2), (-1, 2), (1, 2, 3)],
             8: [(8,), (2, 4), (4, 2), (2, 2, 2), (-1, 2)]}
 BASES = ["dense", "sparse", "rle", "brle"]
 
@@ -556,13 +571,51 @@ def chains_for(shape, depth, full_depth):
 
 
 def apply_op(e, o):
+    """`form` says how the argument is handed over (python int / tuple / list, numpy integer, numpy
+    array); TLC never looks at it"""
+    form = o.get("form", "tuple")
     if o["op"] == "flip":
-        return e.flip(o["axes"][0] if o["form"] == "int" else tuple(o["axes"]))
+        ax = o["axes"]
+        if form == "int":
+            return e.flip(ax[0])
+        if form == "npint":
+            return e.flip(np.int64(ax[0]))
+        if form == "list":
+            return e.flip(list(ax))
+        if form == "array":
+            return e.flip(np.array(ax, dtype=np.int64))
+        return e.flip(tuple(ax))
     if o["op"] == "transpose":
+        if form == "list":
+            return e.transpose(list(o["perm"]))
+        if form == "array":
+            return e.transpose(np.array(o["perm"], dtype=np.int64))
         return e.transpose(tuple(o["perm"]))
     if o["op"] == "reshape":
-        return e.reshape(tuple(o["shape"]))
+        return e.reshape(list(o["shape"]) if form == "list" else tuple(o["shape"]))
     return e.flat
+
+
+def vary_forms(chain, salt):
+    """the same chain with other argument forms (numpy integer axis, list / array of axes, list /
+    array permutation, negative axes), chosen by `salt`"""
+    out = []
+    for k, o in enumerate(chain):
+        o = dict(o)
+        r = (salt + 3 * k) % 6
+        if o["op"] == "flip":
+            if len(o["axes"]) == 1:
+                o["form"] = ("npint", "list", "array", "int", "npint", "tuple")[r]
+            else:
+                o["form"] = ("list", "array", "tuple")[r % 3]
+        elif o["op"] == "transpose":
+            o["form"] = ("list", "array", "tuple")[r % 3]
+            if r >= 3:
+                o["perm"] = [a - len(o["perm"]) for a in o["perm"]]
+        elif o["op"] == "reshape":
+            o["form"] = ("list", "tuple")[r % 2]
+        out.append(o)
+    return tuple(out)
 
 
 def make_base(enc, kind, arr):
@@ -575,7 +628,7 @@ def make_base(enc, kind, arr):
         return enc.SparseEncoding.from_dense(arr)
     flat = arr.reshape((-1,))
     if kind == "rle":
-        e = enc.RunLengthEncoding.from_dense(flat, dtype=bool if arr.dtype == bool else np.int64)
+        e = enc.RunLengthEncoding.from_dense(flat, dtype=arr.dtype)
     else:
         e = enc.BinaryRunLengthEncoding.from_dense(flat)
     return e if arr.ndim == 1 else e.reshape(arr.shape)
@@ -622,17 +675,93 @@ def idx_rows(x, nd):
     return [ints(row) for row in a]
 
 
+DT_ARR = {"int64": np.int64, "int32": np.int32, "int8": np.int8, "uint8": np.uint8, "int16": np.int16}
+INDEX_FORMS = ("list", "uint8", "int32", "uint64", "readonly", "fortran", "int8")
+
+
+def index_arg(rows, nd, form):
+    """the index rows handed to gather_nd in another container / dtype / memory layout"""
+    a = np.array(rows, dtype=np.int64).reshape((-1, nd))
+    if form == "list":
+        return a.tolist()
+    if form in ("uint8", "int32", "uint64", "int8"):
+        return a.astype(form)
+    if form == "readonly":
+        a.flags.writeable = False
+        return a
+    if form == "fortran":
+        return np.asfortranarray(a)
+    return a
+
+
+def arg_reads(R, e, vshape, allidx, rs):
+    """index sets in other forms: python lists, other integer dtypes, read-only and Fortran-ordered
+    arrays, unsorted with repetitions; rows outside the array; negative indices"""
+    nd = len(vshape)
+    size = len(allidx)
+    for form in INDEX_FORMS:
+        gl = [allidx[j] for j in rs.randint(0, size, size=4)] + [allidx[-1], allidx[0], allidx[-1]]
+        do_read(R, "gather_nd", {"arg": gl, "form": form},
+                lambda: {"v": ints(e.gather_nd(index_arg(gl, nd, form)))})
+    # the argument must not be changed by the call
+    gl = [allidx[j] for j in rs.randint(0, size, size=4)]
+    keep = np.array(gl, dtype=np.int64).reshape((-1, nd))
+
+    def unchanged():
+        arg = keep.copy()
+        v = ints(e.gather_nd(arg))
+        if not np.array_equal(arg, keep):
+            raise IndexArgumentChanged()
+        return {"v": v}
+    do_read(R, "gather_nd", {"arg": gl, "form": "kept"}, unchanged)
+    ix = allidx[int(rs.randint(size))]
+    do_read(R, "get_value", {"arg": [ix], "form": "list"}, lambda: {"v": [ints([e.get_value(list(ix))])[0]]})
+    do_read(R, "get_value", {"arg": [ix], "form": "tuple"}, lambda: {"v": [ints([e.get_value(tuple(ix))])[0]]})
+    if nd == 1 and hasattr(e, "gather"):
+        fl = [allidx[j][0] for j in rs.randint(0, size, size=5)]
+        do_read(R, "gather", {"arg": [[x] for x in fl], "form": "list"}, lambda: {"v": ints(e.gather(list(fl)))})
+        do_read(R, "gather", {"arg": [[x] for x in fl], "form": "uint8"}, lambda: {"v": ints(e.gather(np.array(fl, dtype=np.uint8)))})
+    # one row outside the array (on one axis: exactly the length, or beyond), among rows inside
+    for a in range(nd):
+        for beyond in (0, 3):
+            rows = [list(allidx[j]) for j in rs.randint(0, size, size=3)]
+            rows[int(rs.randint(3))][a] = vshape[a] + beyond
+            do_read(R, "gather_oob", {"arg": rows},
+                    lambda: {"v": ints(e.gather_nd(np.array(rows, dtype=np.int64).reshape((-1, nd))))})
+    row = list(allidx[0])
+    row[int(rs.randint(nd))] = -vshape[0] - 1 if nd == 1 else -max(vshape) - 1
+    do_read(R, "gather_oob", {"arg": [row]}, lambda: {"v": ints(e.gather_nd(np.array([row], dtype=np.int64)))})
+    # negative indices inside the range: numpy counts from the end
+    for _ in range(2):
+        rows = [list(allidx[j]) for j in rs.randint(0, size, size=3)]
+        for r_ in rows:
+            a = int(rs.randint(nd))
+            r_[a] -= vshape[a]
+        do_read(R, "gather_neg", {"arg": rows},
+                lambda: {"v": ints(e.gather_nd(np.array(rows, dtype=np.int64).reshape((-1, nd))))})
+
+
+class IndexArgumentChanged(Exception):
+    pass
+
+
 def gen_enc_cases(chunk):
     trimesh = import_trimesh()
     enc = trimesh.voxel.encoding
     out = []
-    for kind, shape, data, chain, vshape, exh, salt in chunk:
+    for item in chunk:
+        kind, shape, data, chain, vshape, exh, salt = item[:7]
+        mode = item[7] if len(item) > 7 else {}
         rs = np.random.RandomState((seed() * 7919 + salt) % (2 ** 31))
         arr = np.array(data, dtype=np.int64).reshape(shape)
-        if max(data) <= 1:
+        if max(data) <= 1 and min(data) >= 0:
             arr = arr.astype(bool)
+        elif mode.get("adt"):
+            arr = arr.astype(DT_ARR[mode["adt"]])      # the dtype the integer array is stored in
         rec = {"fn": "enc", "base": kind, "shape": list(shape), "data": list(data), "chain": list(chain),
                "vshape": list(vshape), "reads": [], "classes": [], "tree": [], "tperms": []}
+        if mode:
+            rec["mode"] = dict(mode)
         try:
             with time_limit("enc.build"):
                 e = make_base(enc, kind, arr)
@@ -654,6 +783,10 @@ def gen_enc_cases(chunk):
         R = rec["reads"]
         do_read(R, "dense", {}, lambda: (lambda d: {"shape": [int(s) for s in d.shape], "flat": ints(d)})(np.asarray(e.dense)))
         do_read(R, "shape", {}, lambda: {"v": [int(s) for s in e.shape]})
+        if mode.get("args"):
+            arg_reads(R, e, vshape, allidx, rs)
+            out.append(rec)
+            continue
         do_read(R, "ndims", {}, lambda: {"v": int(e.ndims)})
         do_read(R, "size", {}, lambda: {"v": ints([e.size])[0]})
         do_read(R, "sum", {}, lambda: {"v": ints([e.sum])[0]})
@@ -707,21 +840,40 @@ def gen_enc_cases(chunk):
         if nd == 1:
             for dn in ("uint8", "int64"):
                 do_read(R, "rld", {"max": DTMAX[dn], "dtype": dn}, lambda: {"v": ints(e.run_length_data(dtype=DT[dn]))})
-                if max(data) <= 1:
+                if max(data) <= 1 and min(data) >= 0:
                     do_read(R, "brld", {"max": DTMAX[dn], "dtype": dn}, lambda: {"v": ints(e.binary_run_length_data(dtype=DT[dn]))})
         out.append(rec)
     return out
 
 
+def random_chain(shape, depth, rs):
+    """a random walk through the view operations (full operation set at every step)"""
+    ch, cur = [], tuple(shape)
+    for _ in range(depth):
+        ops = ops_for(cur)
+        o = ops[int(rs.randint(len(ops)))]
+        ch.append(o)
+        cur = shape_after(cur, o)
+    return tuple(ch), cur
+
+
+INT_VALUES = {"012": (0, 1, 2), "neg": (0, -1, 3)}
+
+
 def encoding_work(tier):
-    """quick: every chain of length <= 1 (all operations) over every array (every other array of the
-    8-element shape at length 1), chains of length 2 over the reduced operation set with a rotating
-    share of the arrays.  thorough: every chain of length <= 2 over every array (every fourth array of
-    the 8-element shape at length 2), length 3 reduced / rotating.  All-empty and all-full arrays
-    meet every chain."""
+    """quick: every chain of length <= 1 (all operations) over every array of up to 4 elements (every
+    second / fourth array of the 6- / 8-element shapes at length 1), chains of length 2 over the
+    reduced operation set with a rotating share of the arrays.  thorough: every chain of length <= 2
+    over every array (every fourth array of the 8-element shape at length 2), length 3 reduced /
+    rotating.  All-empty and all-full arrays meet every chain.
+    Added by the audit: random chains of length 3 - 4 (thorough 4 - 5) over the full operation set,
+    integer-valued arrays (values {0,1,2} and {0,-1,3}, stored as int64 / int32 / int8 / uint8) through
+    chains of length <= 2 (thorough 3), the 1x1x1 array, and trees whose index arguments come in other
+    forms (mode `args`)."""
     big = tier == "thorough"
     depth = 3 if big else 2
     full = 2 if big else 1
+    sd = seed()
     work = []
     salt = 0
     for shape in SHAPES:
@@ -731,26 +883,84 @@ def encoding_work(tier):
         for ci, (chain, vshape) in enumerate(chains):
             # rotation: every chain meets >= 1/stride of the arrays, every array meets 1/stride of the chains
             if len(chain) <= full:
-                stride = (4 if big else 2) if size == 8 and len(chain) == full else 1
+                if big:
+                    stride = 4 if size == 8 and len(chain) == full else 1
+                else:
+                    stride = {8: 6, 6: 3 if len(shape) == 3 else 2}.get(size, 1) if len(chain) == full else 1
             else:
-                stride = {3: 1, 4: 2, 6: 4, 8: 16}[size] * (2 if big else 1)
+                stride = {3: 2, 4: 5, 6: 10, 8: 40}[size] if big else {3: 1, 4: 4, 6: 9, 8: 36}[size]
             exh = len(chain) <= 1 and size <= 4
             for ai, data in enumerate(arrays):
-                if (ai + ci + seed()) % stride and 0 < sum(data) < size:
+                if (ai + ci + sd) % stride and 0 < sum(data) < size:
                     continue
                 for kind in BASES:
                     salt += 1
                     work.append((kind, shape, data, chain, vshape, exh, salt))
-    # integer-valued arrays: dense / sparse / rle, chains of length <= 1
-    for shape in [(3,), (2, 2), (1, 2, 2)]:
+    # the 1x1x1 array (and its views): both arrays, chains of length <= 1
+    for chain, vshape in chains_for((1, 1, 1), 1, 1):
+        for data in ((0,), (1,)):
+            for kind in BASES:
+                salt += 1
+                work.append((kind, (1, 1, 1), data, chain, vshape, False, salt))
+    # integer-valued arrays: dense / sparse / rle
+    idepth = 3 if big else 2
+    adts = ("int64", "int32", "int8", "uint8")
+    for shape in [(3,), (2, 2), (1, 2, 2), (2, 3)]:
         size = int(np.prod(shape))
-        for chain, vshape in chains_for(shape, 1, 1):
-            for data in itertools.product((0, 1, 2), repeat=size):
-                if max(data) < 2:
+        arrays = [d for d in itertools.product((0, 1, 2), repeat=size) if max(d) == 2]
+        for ci, (chain, vshape) in enumerate(chains_for(shape, idepth, 1)):
+            if len(chain) <= 1:
+                stride = (1 if size <= 4 else 6) if big else (1 if size <= 3 else 4 if size == 4 else 24)
+            else:
+                base = {3: 1, 4: 24, 6: 360}[size]
+                stride = base if not big else (base // 2 or 1) if len(chain) == 2 else base * 2
+            for ai, data in enumerate(arrays):
+                if (ai + ci + sd) % stride:
                     continue
+                vals = INT_VALUES["neg" if (ai + ci) % 3 == 0 else "012"]
+                data = tuple(vals[x] for x in data)
+                adt = adts[(ai + 2 * ci) % 4]
+                if adt == "uint8" and min(data) < 0:
+                    adt = "int8"
                 for kind in ("dense", "sparse", "rle"):
                     salt += 1
-                    work.append((kind, shape, data, chain, vshape, False, salt))
+                    work.append((kind, shape, data, vary_forms(chain, salt) if len(chain) > 1 else chain, vshape, False, salt,
+                                 {"adt": adt}))
+    # random deep chains over the full operation set
+    rs = np.random.RandomState(sd + 4242)
+    deep = [(3, 160), (4, 60)] if not big else [(3, 300), (4, 600), (5, 200)]
+    dshapes = [(2, 2, 2), (1, 2, 3), (2, 3), (2, 2), (4,)]
+    for d, n in deep:
+        for k in range(n):
+            shape = dshapes[k % len(dshapes)]
+            size = int(np.prod(shape))
+            chain, vshape = random_chain(shape, d, rs)
+            for j in range(2):
+                data = tuple(int(x) for x in rs.randint(0, 2, size=size))
+                for kind in BASES:
+                    salt += 1
+                    work.append((kind, shape, data, vary_forms(chain, salt), vshape, False, salt))
+            data = tuple(INT_VALUES["neg" if k % 2 else "012"][int(x)] for x in rs.randint(0, 3, size=size))
+            if max(data) > 1 or min(data) < 0:
+                for kind in ("dense", "sparse", "rle"):
+                    salt += 1
+                    work.append((kind, shape, data, chain, vshape, False, salt, {"adt": adts[k % 3]}))
+    # index arguments in other forms, rows outside the array, negative indices
+    for shape in SHAPES + [(1, 1, 1)]:
+        size = int(np.prod(shape))
+        chains = chains_for(shape, 1, 1)
+        more = 16 if not big else 60
+        chains += [random_chain(shape, 2 + (k % 2), rs) for k in range(more if len(shape) > 1 else more // 4)]
+        for ci, (chain, vshape) in enumerate(chains):
+            arrs = [tuple(int(x) for x in rs.randint(0, 2, size=size)) for _ in range(2 if not big else 4)]
+            if ci % 4 == 0:
+                arrs.append(tuple(INT_VALUES["012"][int(x)] for x in rs.randint(0, 3, size=size)))
+            for data in arrs:
+                for kind in BASES:
+                    if kind == "brle" and max(data) > 1:
+                        continue
+                    salt += 1
+                    work.append((kind, shape, data, vary_forms(chain, salt), vshape, False, salt, {"args": True}))
     return work
 
 
@@ -909,7 +1119,102 @@ def grid_transforms():
     out.append(("shear", np.array([[4, 4, 0], [0, 4, 8], [0, 0, 4]]), [0, 1, 0]))
     out.append(("shear_scale", np.array([[2, 1, 0], [0, 4, -2], [3, 0, 8]]), [5, 5, 5]))
     out.append(("general", np.array([[4, -4, 2], [2, 4, 0], [0, 1, 4]]), [-1, 0, 7]))
+    # rotations by the 3-4-5 angle (times 5/4, so that 4 M is an integer matrix), alone, composed,
+    # combined with a non-uniform scale and with a mirror; strongly non-uniform scales
+    RZ, RX = np.array(ROT_Z5), np.array(ROT_X5)
+    out.append(("rot345z", RZ, [0, 0, 0]))
+    out.append(("rot345x_t", RX, [3, -2, 9]))
+    out.append(("rot345zx", RZ @ RX, [1, 1, -4]))
+    out.append(("rot345z_scale124", RZ @ np.diag([1, 2, 4]), [0, 6, 1]))
+    out.append(("scale124_rot345z", np.diag([1, 2, 4]) @ RZ, [2, 0, 0]))
+    out.append(("rot345z_mirror_x", RZ @ np.diag([-1, 1, 1]), [-5, 0, 2]))
+    out.append(("scale_1_4_28", np.diag([1, 4, 28]), [0, 0, 0]))
+    out.append(("scale_1_m4_28", np.diag([1, -4, 28]), [7, 7, 7]))
     return out
+
+
+ROT_Z5 = [[3, -4, 0], [4, 3, 0], [0, 0, 5]]          # 5 x rotation about z by atan2(4, 3)
+ROT_X5 = [[5, 0, 0], [0, 3, -4], [0, 4, 3]]
+# steps that edit the transform of an existing grid in place: integer matrices, quarter translations
+HIST_STEPS = [
+    {"op": "apply_transform", "Mi": [[0, -1, 0], [1, 0, 0], [0, 0, 1]], "t4": [0, 0, 0]},
+    {"op": "apply_transform", "Mi": ROT_Z5, "t4": [4, -8, 2]},
+    {"op": "apply_transform", "Mi": [[-1, 0, 0], [0, 1, 0], [0, 0, 1]], "t4": [1, 0, 0]},
+    {"op": "apply_transform", "Mi": [[1, 0, 0], [0, 2, 0], [0, 0, 3]], "t4": [0, 2, -6]},
+    {"op": "apply_transform", "Mi": [[1, 1, 0], [0, 1, 0], [0, 0, 1]], "t4": [0, 0, 5]},
+    {"op": "apply_scale", "s": 2},
+    {"op": "apply_scale", "s": 3},
+    {"op": "apply_translation", "t4": [6, -1, 3]},
+    {"op": "set", "M4": [[8, 0, 0], [0, 8, 0], [0, 0, 8]], "t4": [4, 4, 4]},
+    {"op": "set", "M4": ROT_X5, "t4": [0, -3, 0]},
+]
+HIST_READS = ["points", "volume", "points_to_indices", "is_filled", "bounds", "element_volume", "scale",
+              "filled_count", "sparse_indices"]
+
+
+def effective(M4, t4, hist):
+    """input selection only (keeps the numbers inside TLC's integers); the specification composes
+    the history itself"""
+    M, t = np.array(M4, dtype=np.int64), np.array(t4, dtype=np.int64)
+    for h in hist:
+        if h["op"] == "set":
+            M, t = np.array(h["M4"], dtype=np.int64), np.array(h["t4"], dtype=np.int64)
+            continue
+        Mi = np.array(h["Mi"]) if h["op"] == "apply_transform" else np.eye(3, dtype=np.int64) * h.get("s", 1)
+        M = Mi @ M
+        t = Mi @ t + (np.array(h["t4"]) if "t4" in h else 0)
+    return M, t
+
+
+def pick_hist(rs, M4, t4):
+    for _ in range(20):
+        hist = [dict(HIST_STEPS[j]) for j in rs.randint(0, len(HIST_STEPS), size=int(rs.randint(1, 4)))]
+        M, t = effective(M4, t4, hist)
+        if np.abs(M).max() <= 300 and np.abs(t).max() <= 3000 and abs(round(np.linalg.det(M))) * 12 < 10 ** 8:
+            return hist
+    return [dict(HIST_STEPS[5])]
+
+
+def touch(g, name):
+    """read something (fills the caches of the grid and of its Transform) before the next edit"""
+    try:
+        if name == "points_to_indices":
+            g.points_to_indices(np.zeros((2, 3)))
+        elif name == "is_filled":
+            g.is_filled(np.zeros((2, 3)))
+        else:
+            getattr(g, name)
+    except Exception:  # noqa  (scale raises for rotated grids, bounds for empty ones)
+        pass
+
+
+def run_hist(g, hist, reads):
+    for h in hist:
+        for r in reads:
+            touch(g, r)
+        if h["op"] == "apply_transform":
+            T = np.eye(4)
+            T[:3, :3] = np.array(h["Mi"], dtype=np.float64)
+            T[:3, 3] = np.array(h["t4"], dtype=np.float64) / 4.0
+            g.apply_transform(T)
+        elif h["op"] == "apply_scale":
+            g.apply_scale(h["s"])
+        elif h["op"] == "apply_translation":
+            g.apply_translation(np.array(h["t4"], dtype=np.float64) / 4.0)
+        else:
+            g.transform = mat4(h["M4"], h["t4"])
+    return g
+
+
+class NonFiniteTransform(Exception):
+    pass
+
+
+def finite(T):
+    T = np.asarray(T, dtype=np.float64)
+    if not np.all(np.isfinite(T)):
+        raise NonFiniteTransform()
+    return T
 
 
 def mat4(M4, t4):
@@ -940,14 +1245,21 @@ def gen_grid_cases(chunk):
     for item in chunk:
         what = item[0]
         if what == "maps":
-            _, name, M4, t4, shape, data = item
+            _, name, M4, t4, shape, data = item[:6]
+            extra = item[6] if len(item) > 6 else {}
+            kind, hist, reads = extra.get("base", "dense"), extra.get("hist"), extra.get("reads", [])
             arr = np.array(data, dtype=bool).reshape(shape)
             M4l, t4l = [ints(r) for r in M4], ints(t4)
             idx = [list(t) for t in np.ndindex(*shape)] + [[-1, 0, 0], [0, shape[1], 0], [1, 1, shape[2] + 2]]
-            base = {"fn": "grid_maps", "tf": name, "M4": M4l, "t4": t4l, "shape": list(shape), "data": list(data), "idx": idx}
+            base = {"fn": "grid_maps", "tf": name, "M4": M4l, "t4": t4l, "shape": list(shape), "data": list(data), "idx": idx,
+                    "base": kind}
+            if hist is not None:
+                base.update(hist=hist, reads_before=reads)
 
             def maps():
-                g = voxel.VoxelGrid(enc.DenseEncoding(arr.copy()), transform=mat4(M4, t4))
+                g = voxel.VoxelGrid(make_base(enc, kind, arr), transform=mat4(M4, t4))
+                if hist is not None:
+                    run_hist(g, hist, reads)
                 ia = np.array(idx, dtype=np.int64)
                 pts = g.indices_to_points(ia)
                 back = g.points_to_indices(pts)
@@ -957,7 +1269,7 @@ def gen_grid_cases(chunk):
                 return r
             add(dict(base), maps)
             diag = np.array(M4)
-            if diag[0, 0] > 0 and np.array_equal(diag, np.eye(3, dtype=np.int64) * diag[0, 0]):
+            if hist is None and diag[0, 0] > 0 and np.array_equal(diag, np.eye(3, dtype=np.int64) * diag[0, 0]):
                 # the free functions of voxel.ops take a scalar pitch and an origin
                 def opsmaps():
                     ia = np.array(idx, dtype=np.int64)
@@ -969,15 +1281,84 @@ def gen_grid_cases(chunk):
                             "points4": [ints(p) for p in snap(mp, 4)], "via": "ops"}
                 add(dict(base), opsmaps)
         elif what == "volume":
-            _, name, M4, t4, shape, data, kind = item
+            _, name, M4, t4, shape, data, kind = item[:7]
+            extra = item[7] if len(item) > 7 else {}
+            hist, reads = extra.get("hist"), extra.get("reads", [])
             arr = np.array(data, dtype=bool).reshape(shape)
-            base = {"fn": "grid_volume", "tf": name, "M4": [ints(r) for r in M4], "shape": list(shape),
+            base = {"fn": "grid_volume", "tf": name, "M4": [ints(r) for r in M4], "t4": ints(t4), "shape": list(shape),
                     "data": list(data), "base": kind}
+            if hist is not None:
+                base.update(hist=hist, reads_before=reads)
 
             def vol():
                 g = voxel.VoxelGrid(make_base(enc, kind, arr), transform=mat4(M4, t4))
+                if hist is not None:
+                    run_hist(g, hist, reads)
                 return {"count": int(g.filled_count), "vol64": int(snap([g.volume], 64)[0])}
             add(base, vol)
+        elif what == "off":
+            # points inside the cells (not at their centres), in the three shapes VoxelGrid accepts
+            _, name, M4, t4, shape, data, kind, d16, pform, extra = item
+            hist, reads = extra.get("hist"), extra.get("reads", [])
+            arr = np.array(data, dtype=bool).reshape(shape)
+            idx = [list(t) for t in np.ndindex(*shape)] + [[-1, 0, 0], [0, shape[1], 0], [1, 1, shape[2] + 2], [-2, -1, -1]]
+            if pform == "single":
+                idx = [idx[extra.get("pick", 0) % len(idx)]]
+            elif pform == "block":
+                idx = idx[:2 * (len(idx) // 2)]
+            d16l = [list(d16[k % len(d16)]) for k in range(len(idx))]
+            base = {"fn": "grid_off", "tf": name, "M4": [ints(r) for r in M4], "t4": ints(t4), "shape": list(shape),
+                    "data": list(data), "base": kind, "idx": idx, "d16": d16l, "pform": pform}
+            if hist is not None:
+                base.update(hist=hist, reads_before=reads)
+
+            def off():
+                g = voxel.VoxelGrid(make_base(enc, kind, arr), transform=mat4(M4, t4))
+                if hist is not None:
+                    run_hist(g, hist, reads)
+                # the point M (idx + d) + t, from the matrix the grid reports (so that the history is
+                # not evaluated here); TLC checks that it is the point the specification means
+                T = np.array(g.transform, dtype=np.float64)
+                q = np.array(idx, dtype=np.float64) + np.array(d16l, dtype=np.float64) / 16.0
+                pts = q @ T[:3, :3].T + T[:3, 3]
+                if pform == "single":
+                    pin = pts[0]
+                elif pform == "block":
+                    pin = pts.reshape((2, -1, 3))
+                else:
+                    pin = pts
+                back = np.asarray(g.points_to_indices(pin))
+                filled = np.asarray(g.is_filled(pin))
+                return {"pts64": [ints(p) for p in snap(pts, 64)], "pshape": [int(v) for v in pin.shape],
+                        "bshape": [int(v) for v in back.shape], "back": [ints(b) for b in back.reshape((-1, 3))],
+                        "fshape": [int(v) for v in filled.shape], "filled": ints(filled.reshape(-1))}
+            add(base, off)
+        elif what == "ops_maps":
+            _, pitch4, origin4, shape = item
+            idx = [list(t) for t in np.ndindex(*shape)] + [[-1, 0, 0], [0, shape[1], 0]]
+            base = {"fn": "ops_maps", "has_pitch": int(pitch4 is not None), "has_origin": int(origin4 is not None),
+                    "pitch4": pitch4 or 0, "origin4": list(origin4) if origin4 is not None else [0, 0, 0], "idx": idx}
+
+            def opsm():
+                kw = {}
+                if pitch4 is not None:
+                    kw["pitch"] = pitch4 / 4.0
+                if origin4 is not None:
+                    kw["origin"] = np.array(origin4, dtype=np.float64) / 4.0
+                pts = ops.indices_to_points(np.array(idx, dtype=np.int64), **kw)
+                back = ops.points_to_indices(pts, **kw)
+                return {"pts4": [ints(p) for p in snap(pts, 4)], "back": [ints(b) for b in back]}
+            add(base, opsm)
+        elif what == "ops_strip":
+            _, shape, data = item
+            arr = np.array(data, dtype=bool).reshape(shape)
+            base = {"fn": "ops_strip_array", "shape": list(shape), "data": list(data)}
+
+            def opss():
+                st, _pad = ops.strip_array(arr)
+                st = np.asarray(st)
+                return {"rshape": [int(v) for v in st.shape], "rflat": ints(st)}
+            add(base, opss)
         elif what == "reload":
             _, shape, dr, L4, t4, order = item
             arr = expand_runs(dr, bool).reshape(shape)
@@ -1016,7 +1397,7 @@ def gen_grid_cases(chunk):
             _, shape, data, kind, L4, t4, order = item
             arr = np.array(data, dtype=bool).reshape(shape)
             # binvox stores one scalar edge length: pitch_a * (n_a - 1) must be the same on every axis
-            M4 = np.diag([L4 // (s - 1) for s in shape])
+            M4 = np.diag([L4 // max(s - 1, 1) for s in shape])
             base = {"fn": "grid_binvox", "shape": list(shape), "data": list(data), "base": kind,
                     "M4": [ints(r) for r in M4], "t4": list(t4), "axis_order": order}
 
@@ -1024,7 +1405,7 @@ def gen_grid_cases(chunk):
                 g = voxel.VoxelGrid(make_base(enc, kind, arr), transform=mat4(M4, t4))
                 blob = g.export(file_type="binvox", axis_order=order)
                 g2 = trimesh.exchange.binvox.load_binvox(io.BytesIO(blob), axis_order=order)
-                T = np.asarray(g2.transform)
+                T = finite(g2.transform)
                 r = {"rshape": [int(s) for s in g2.shape],
                      "rfilled": [ints(row) for row in np.argwhere(np.asarray(g2.matrix))],
                      "rM4": [ints(row) for row in snap(T[:3, :3], 4)], "rt4": ints(snap(T[:3, 3], 4))}
@@ -1035,11 +1416,19 @@ def gen_grid_cases(chunk):
                 g = voxel.VoxelGrid(make_base(enc, kind, arr), transform=mat4(M4, t4))
                 g2 = trimesh.exchange.binvox.load_binvox(io.BytesIO(g.export(file_type="binvox", axis_order=order)),
                                                          axis_order=order)
-                T = np.asarray(g2.transform)
+                T = finite(g2.transform)
                 return {"rshape": [int(s) for s in g2.shape], "rfilled": idx_rows(g2.sparse_indices, 3),
                         "rM4": [ints(row) for row in snap(T[:3, :3], 4)], "rt4": ints(snap(T[:3, 3], 4))}
             add(dict(base, via="sparse_indices"), rt_sparse)
     return out
+
+
+D16 = [[(4, -4, 7), (-7, 7, 0), (0, 0, 0), (7, 7, 7), (-7, -7, -7)],
+       [(7, 0, 0), (0, -7, 0), (0, 0, 7), (-4, 4, -4)],
+       [(-7, -7, 7), (1, 0, -1), (7, -7, -7)]]
+PFORMS = ("rows", "single", "block")
+UNIT_AXIS_BINVOX = (((1, 1, 1), (4, 8, 2)), ((1, 2, 2), (4, 8)), ((2, 1, 2), (8,)), ((2, 2, 1), (4,)),
+                    ((1, 1, 3), (8,)), ((3, 1, 1), (8,)))
 
 
 def grid_work(tier):
@@ -1047,17 +1436,37 @@ def grid_work(tier):
     rs = np.random.RandomState(seed() + 77)
     work = []
     tfs = grid_transforms()
-    shapes = [(2, 2, 2), (1, 2, 3), (3, 1, 2)]
+    shapes = [(2, 2, 2), (1, 2, 3), (3, 1, 2), (1, 1, 1)]
     for ti, (name, M4, t4) in enumerate(tfs):
-        for shape in shapes:
+        for si, shape in enumerate(shapes):
             size = int(np.prod(shape))
             arrays = list(itertools.product((0, 1), repeat=size))
-            pick = arrays if big else [arrays[j] for j in sorted(set(rs.randint(0, len(arrays), size=6).tolist()) | {0, len(arrays) - 1})]
-            for data in pick:
-                work.append(("maps", name, M4, t4, shape, data))
-                for kind in (BASES if big else [BASES[(ti + sum(data)) % 4]]):
-                    work.append(("volume", name, M4, t4, shape, data, kind))
-    for shape, L4s in (((2, 2, 2), (4, 8, 2)), ((2, 3, 2), (8, 4)), ((3, 2, 3), (8,)), ((3, 3, 3), (8,))):
+            pick = arrays if big or size == 1 else [arrays[j] for j in sorted(set(rs.randint(0, len(arrays), size=6).tolist()) | {0, len(arrays) - 1})]
+            for di, data in enumerate(pick):
+                kind = BASES[(ti + di) % 4]
+                work.append(("maps", name, M4, t4, shape, data, {"base": kind}))
+                for vk in (BASES if big else [BASES[(ti + sum(data)) % 4]]):
+                    work.append(("volume", name, M4, t4, shape, data, vk))
+                # points inside the cells, not at their centres
+                if di % 2 == 0 or (big and di % 8 < 4):
+                    work.append(("off", name, M4, t4, shape, data, BASES[(ti + di + 1) % 4], D16[(ti + di) % len(D16)],
+                                 PFORMS[(ti + di + si) % 3], {"pick": di + ti}))
+                # the transform edited in place after construction (with and without reads in between)
+                if di % 3 == 0 or (big and di % 8 == 1):
+                    ex = {"base": kind, "hist": pick_hist(rs, M4, t4), "reads": HIST_READS if (ti + di) % 2 == 0 else []}
+                    work.append(("maps", name, M4, t4, shape, data, ex))
+                    work.append(("volume", name, M4, t4, shape, data, BASES[(ti + di + 2) % 4], ex))
+                    work.append(("off", name, M4, t4, shape, data, BASES[(ti + di + 3) % 4], D16[(ti + di + 1) % len(D16)],
+                                 PFORMS[(ti + di) % 3], dict(ex, pick=di)))
+    # voxel.ops: pitch and origin are optional
+    for pitch4 in (None, 4, 2, 10):
+        for origin4 in (None, [0, 0, 0], [3, -6, 1]):
+            for shape in ((2, 2, 2), (1, 2, 3)):
+                work.append(("ops_maps", pitch4, origin4, shape))
+    # ("ops_strip" items - voxel.ops.strip_array, which drops the last filled plane of every axis - are
+    # not enumerated: the function works on a bare ndarray, not on an encoding, and nothing in trimesh
+    # calls it; the statement does not reach it.  OkOpsStrip / the handler above are kept for probes.)
+    for shape, L4s in (((2, 2, 2), (4, 8, 2)), ((2, 3, 2), (8, 4)), ((3, 2, 3), (8,)), ((3, 3, 3), (8,))) + UNIT_AXIS_BINVOX:
         size = int(np.prod(shape))
         if size <= 8:
             arrays = list(itertools.product((0, 1), repeat=size))
@@ -1084,12 +1493,22 @@ def grid_work(tier):
             for order in ("xzy", "xyz"):
                 L4 = 4 * int(np.lcm.reduce([n - 1 for n in shape]))
                 work.append(("reload", shape, dr, L4, [4, -2, 9] if di % 2 else [0, 0, 0], order))
-    # mirrored grids (negative scale on some axes): world positions of the filled cells must survive
-    arrays = list(itertools.product((0, 1), repeat=8))
-    for ai, data in enumerate(arrays if big else arrays[seed() % 4::4]):
-        for signs in ((-1, 1, 1), (1, -1, -1), (-1, -1, -1), (1, 1, 1)):
-            M4 = np.diag([4 * x for x in signs])
-            work.append(("binvox_points", (2, 2, 2), data, "dense", M4, [4, 0, -8], ("xzy", "xyz")[ai % 2]))
+    # mirrored grids (negative scale on some axes): world positions of the filled cells must survive;
+    # cubic and non-cubic shapes, every base encoding
+    k = 0
+    for shape, L4 in (((2, 2, 2), 4), ((2, 3, 2), 8), ((3, 2, 3), 8), ((1, 2, 2), 4)):
+        size = int(np.prod(shape))
+        if size <= 8:
+            arrays = list(itertools.product((0, 1), repeat=size))
+            arrays = arrays if big else arrays[seed() % 4::4]
+        else:
+            arrays = [tuple(int(x) for x in rs.randint(0, 2, size=size)) for _ in range(200 if big else 24)]
+        for ai, data in enumerate(arrays):
+            for signs in ((-1, 1, 1), (1, -1, -1), (-1, -1, -1), (1, 1, 1)):
+                k += 1
+                M4 = np.diag([x * (L4 // max(n - 1, 1)) for x, n in zip(signs, shape)])
+                work.append(("binvox_points", shape, data, "dense" if shape == (2, 2, 2) else BASES[k % 4], M4, [4, 0, -8],
+                             ("xzy", "xyz")[(ai + k // 4) % 2]))
     return work
 
 
@@ -1153,6 +1572,24 @@ DEVIATIONS = {
                                "asserts against it: AssertionError for grids with shape[1] != shape[2]",
     "BinvoxNegativeScaleTranslation": "export_binvox flips axes of negative scale but keeps the translation of the "
                                       "un-flipped grid: the reloaded cells are shifted by (n-1)*|scale|",
+    # ---- found by the audit round (index forms, degenerate grids)
+    "BinvoxUnitAxis": "binvox export / load turn the pitch into scale = pitch * (n - 1) and back: an axis of length 1 "
+                      "gives 0 (export refuses every grid with such an axis; a 1x1x1 grid is written with scale 0 and "
+                      "loads with a NaN transform)",
+    "OpsPointsToIndicesDefaultPitch": "voxel.ops.points_to_indices(points) with the documented default pitch=None calls "
+                                      "float(None): TypeError",
+    "GatherNdListIndices": "gather_nd of DenseEncoding / SparseEncoding / ShapedEncoding / FlippedEncoding uses array "
+                           "attributes of its argument (.T, .shape, .copy()): a python list of index rows raises, while "
+                           "run-length, flattened and transposed encodings accept it",
+    "FlippedUnsignedIndices": "FlippedEncoding._to_base_indices multiplies the caller's index array by -1 in its own dtype: "
+                              "OverflowError for unsigned index arrays (numpy 2)",
+    "RleGetValueSequenceIndex": "RunLengthEncoding.get_value hands (index,) to the sorted gather: a list / tuple index "
+                                "(what DenseEncoding.get_value needs) raises TypeError",
+    "FlippedFlipNumpyInteger": "FlippedEncoding.flip accepts int / ndarray / iterable axes but not a numpy integer "
+                               "(Encoding.flip does): TypeError when a second flip is given np.int64",
+    "BrleNegativeIndex": "sorted_brle_gather_1d answers a negative index with the value of the first run negated twice "
+                         "(True for data starting with False) instead of raising or counting from the end; an index "
+                         "below -length is answered too",
 }
 
 
@@ -1180,6 +1617,8 @@ def attribute_narrow_fn(c, clause):
 def attribute_fn(c, clause):
     fn = c["fn"]
     e = c.get("e", [])
+    if fn in ("brle_gather_1d", "sorted_brle_gather_1d") and min(c.get("idx", [0])) < 0:
+        return ["BrleNegativeIndex"]
     if c.get("store", "int64") != "int64":
         return attribute_narrow_fn(c, clause)
     if fn == "brle_reverse" and (len(e) % 2 == 0 or e[-1] == 0) and clause == "denotes_reversed_sequence" \
@@ -1219,10 +1658,23 @@ def attribute_enc(rec, q, clause):
     empty = not any(rec["data"])
     taints = construction_taints(rec)
     if q is None:
+        classes, chain = rec["classes"], rec["chain"]
+        k = len(classes) - 1            # the operation that failed
+        if clause == "build_raised_TypeError" and 0 <= k < len(chain) and chain[k]["op"] == "flip" \
+                and chain[k].get("form") == "npint" and classes[k] == "FlippedEncoding":
+            return ["FlippedFlipNumpyInteger"] + taints
         return taints
     r = q["r"]
     raised = clause.startswith("raised_")
     c = []
+    if r == "gather_nd" and q.get("form") == "list" and clause in ("raised_AttributeError", "raised_TypeError"):
+        c.append("GatherNdListIndices")
+    if r == "gather_nd" and q.get("form") in ("uint8", "uint64") and clause == "raised_OverflowError" and "FlippedEncoding" in tree:
+        c.append("FlippedUnsignedIndices")
+    if r == "get_value" and q.get("form") in ("list", "tuple") and clause == "raised_TypeError" and tree[0] in RL:
+        c.append("RleGetValueSequenceIndex")
+    if r in ("gather_neg", "gather_oob") and kind == "brle" and not raised:
+        c.append("BrleNegativeIndex")
     involution = lambda p: all(p[p[a]] == a for a in range(len(p)))  # noqa
     if r == "get_value":
         if tree[0] in LAZY and raised:
@@ -1293,6 +1745,11 @@ def attribute_enc1d(rec, q, clause):
 
 
 def attribute_grid(c, clause):
+    if c["fn"] in ("grid_binvox", "grid_binvox_points") and 1 in c["shape"] and \
+            clause in ("raised_ValueError", "raised_NonFiniteTransform", "binvox_transform"):
+        return ["BinvoxUnitAxis"]
+    if c["fn"] == "ops_maps" and c["has_pitch"] == 0 and clause == "raised_TypeError":
+        return ["OpsPointsToIndicesDefaultPitch"]
     if c["fn"] == "grid_volume" and clause == "volume_is_filled_count_times_cell_volume":
         M = np.array(c["M4"], dtype=np.int64)
         if round(np.linalg.det(M)) < 0 and c.get("vol64", 0) < 0:
@@ -1371,6 +1828,7 @@ def main(argv):
         rounds = [fn_round] + [lambda k=k: enc_round(k, nr) for k in range(nr)] + [lambda: enc1d_round() + grid_round()]
 
     count = {"fn": 0, "enc": 0, "grid": 0}
+    fam_count = {}
     byfn, by_dev, by_clause_dev = {}, {}, {}
     unattributed, unattributed_examples, samples = {}, [], []
     reads = states = rejected = narrow_records = 0
@@ -1392,7 +1850,9 @@ def main(argv):
                 reads += len(c["reads"])
             nxt += 1
             byfn[c["fn"]] = byfn.get(c["fn"], 0) + 1
-            count["enc" if c["fn"] in ("enc", "enc1d") else "grid" if c["fn"].startswith("grid_") else "fn"] += 1
+            count["enc" if c["fn"] in ("enc", "enc1d") else "grid" if c["fn"].startswith(("grid_", "ops_")) else "fn"] += 1
+            for fam in families_of(c):
+                fam_count[fam] = fam_count.get(fam, 0) + 1
             if c.get("store", "int64") != "int64" or c["fn"] == "grid_reload":
                 narrow_records += 1
         if not cases:
@@ -1421,7 +1881,7 @@ def main(argv):
                 if q is not None:
                     detail["read"] = q
             else:
-                cands = attribute_grid(c, clause) if c["fn"].startswith("grid_") else attribute_fn(c, clause)
+                cands = attribute_grid(c, clause) if c["fn"].startswith(("grid_", "ops_")) else attribute_fn(c, clause)
                 detail = {k: v for k, v in c.items() if k != "id"}
                 name = c["fn"]
             dev = choose(V, cands)
@@ -1438,6 +1898,10 @@ def main(argv):
         raise MachineryError(f"enumeration too small: {count}, {reads} reads")
     if narrow_records < 20000:
         raise MachineryError(f"only {narrow_records} records with narrowly stored run-length data")
+    # families added by the audit round: none of them may come out (nearly) empty
+    for fam, need in FAMILY_MIN.items():
+        if fam_count.get(fam, 0) < need * (4 if tier == "thorough" else 1):
+            raise MachineryError(f"family {fam}: only {fam_count.get(fam, 0)} records (need {need}); all: {fam_count}")
     cov = {
         "states": states, "transitions": states,
         "traces_validated_against_impl": sum(count.values()),
@@ -1446,6 +1910,7 @@ def main(argv):
         "encoding_reads": reads,
         "grid_cases": count["grid"],
         "narrow_stored_records": narrow_records,
+        "audit_families": fam_count,
         "cases_per_function": byfn,
         "rejected": rejected,
         "rejected_by_deviation": by_dev,
@@ -1465,8 +1930,71 @@ def main(argv):
         "arrays of at most 8 elements (shapes (3,),(4,),(2,2),(2,3),(2,2,2),(1,2,3)), view chains of length <= "
         + ("3" if tier == "thorough" else "2"),
         "order of sparse_indices is not part of the contract; result dtypes are not compared (values only)",
-        "zero-length arrays, negative gather indices and the padding of an all-zero sequence under rle_strip/brle_strip are left unconstrained",
+        "zero-length arrays and the padding of an all-zero sequence under rle_strip/brle_strip are left unconstrained; "
+        "a negative gather index may raise or count from the end (numpy), an index outside the array must raise (any exception)",
+        "random view chains of length 3 - " + ("5" if tier == "thorough" else "4") + " over the full operation set; integer arrays over "
+        "{0,1,2} and {0,-1,3} stored as int64 / int32 / int8 / uint8; index rows as list, (u)int8/32/64, read-only, Fortran order",
+        "grid transforms: quarter-integer matrices incl. 3-4-5 rotations (x 5/4), rotation x non-uniform scale, mirrors, shear; "
+        "in-place edits (apply_transform / apply_scale / apply_translation / transform setter) composed by the specification; "
+        "points up to 7/16 of a cell off the centre; binvox needs pitch * max(n - 1, 1) equal on all axes",
+        "masks given as lists or Encodings, reshape to a wrong size, gathers with 2-D index blocks on 1-D run-length data and "
+        "voxel.ops.strip_array are not constrained",
     ])
+
+
+FAMILY_MIN = {
+    "enc_chain_ge3": 1200, "enc_integer_chain_ge2": 900, "enc_integer_negative_values": 500, "enc_1x1x1": 100,
+    "enc_index_forms": 1000, "enc_out_of_range_reads": 3000, "enc_negative_index_reads": 2000, "enc_numpy_integer_flip": 150,
+    "fn_negative_index": 3000,
+    "grid_rotated_transform": 300, "grid_history": 500, "grid_offcentre": 500, "grid_unit_axis": 300,
+    "grid_single_or_block_points": 300, "grid_binvox_unit_axis": 200, "grid_binvox_mirrored_noncubic": 150,
+    "grid_maps_other_base": 600, "ops_optional_arguments": 12,
+}
+
+
+def families_of(c):
+    """which of the audit families a record belongs to (coverage accounting only)"""
+    fn = c["fn"]
+    out = []
+    if fn == "enc":
+        ch = c["chain"]
+        integer = max(c["data"]) > 1 or min(c["data"]) < 0
+        if len(ch) >= 3:
+            out.append("enc_chain_ge3")
+        if integer and len(ch) >= 2:
+            out.append("enc_integer_chain_ge2")
+        if integer and min(c["data"]) < 0:
+            out.append("enc_integer_negative_values")
+        if c["shape"] == [1, 1, 1]:
+            out.append("enc_1x1x1")
+        if c.get("mode", {}).get("args"):
+            out.append("enc_index_forms")
+            out += ["enc_out_of_range_reads"] * sum(1 for q in c["reads"] if q["r"] == "gather_oob")
+            out += ["enc_negative_index_reads"] * sum(1 for q in c["reads"] if q["r"] == "gather_neg")
+        if any(o["op"] == "flip" and o.get("form") == "npint" for o in ch):
+            out.append("enc_numpy_integer_flip")
+    elif fn in NARROW_GATHER and min(c.get("idx", [0])) < 0:
+        out.append("fn_negative_index")
+    elif fn in ("grid_maps", "grid_volume", "grid_off"):
+        if c.get("tf", "").startswith(("rot345", "scale124_rot")):
+            out.append("grid_rotated_transform")
+        if "hist" in c:
+            out.append("grid_history")
+        if fn == "grid_off":
+            out.append("grid_offcentre")
+            if c["pform"] != "rows":
+                out.append("grid_single_or_block_points")
+        if 1 in c["shape"]:
+            out.append("grid_unit_axis")
+        if fn == "grid_maps" and c.get("base", "dense") != "dense":
+            out.append("grid_maps_other_base")
+    elif fn == "grid_binvox" and 1 in c["shape"]:
+        out.append("grid_binvox_unit_axis")
+    elif fn == "grid_binvox_points" and c["shape"] != [2, 2, 2] and any(c["M4"][a][a] < 0 for a in range(3)):
+        out.append("grid_binvox_mirrored_noncubic")
+    elif fn == "ops_maps" and not (c["has_pitch"] and c["has_origin"]):
+        out.append("ops_optional_arguments")
+    return out
 
 
 def strip_sample(c):
